@@ -378,8 +378,8 @@ MANIFEST = dict(
           "poll or creation; repeated notifications coalesce, late observers start clear, observers are independent, polls "
           "after the observable died return false, and no history dereferences a destroyed object in any destruction order; "
           "for every interleaving of any number of threads the fetch-and-increment counter hands out pairwise distinct values, "
-          "increasing per thread, and copies keep their source's value. Tied to the code by running the same random histories "
-          "through the real classes under ASan/UBSan and through the compiled model, by threaded stamp runs (1-16 threads) "
+          "increasing per thread, and copies keep their source's value; stamps drawn by unrelated code between the operations (any number: 2^31, 2^40) are invisible to every observer (foreign_draws_invisible). Tied to the code by running the same random histories "
+          "through the real classes under ASan/UBSan and through the compiled model (incl. jumps of the process-wide counter by 2^31..2^40 between operations), by threaded stamp runs (1-16 threads) "
           "checked for uniqueness/monotonicity under ASan and TSan, and by a source-shape check that the counter is a "
           "std::atomic advanced by a single read-modify-write."),
     note=("Trusted: Lean kernel; axioms propext/Classical.choice/Quot.sound; the hand-written model is tied to the code by the "
